@@ -110,15 +110,16 @@ and every configuration — reachable or not — so they hold along every schedu
 open ActixModel.DispWake
 
 /-- **C04_pending_registers_write.** Whenever `Dispatcher::poll` returns `Pending` — in normal,
-linger or shutdown mode — either nothing is unflushed (`write_buf` empty and the socket has
+linger or shutdown mode — without having requested a wake-up itself (a self-woken task is polled
+again at once), either nothing is unflushed (`write_buf` empty and the socket has
 nothing accepted-but-unflushed), or the task's waker is stored with the socket's write side
 (`poll_write` or `poll_flush` answered `Pending` during this very poll).  Response bytes are never
 left waiting for a wake-up that nobody will deliver. -/
 theorem C04_pending_registers_write (e : Env) (F : Nat) (d d' : D) (w w' : World)
-    (h : pollTop e F d w = (.pending, d', w')) :
+    (h : pollTop e F d w = (.pending, d', w')) (hw : w'.woken = false) :
     (d'.wlen = 0 ∧ w'.dirty = false) ∨ (w'.sem .w).waiting = true ∨ (w'.sem .f).waiting = true := by
   obtain ⟨hp, hfuel⟩ := pollTop_pending h
-  rcases (poll_spec e F 2 d w d' w' hp).1 with h1 | h1 | h1 | h1
+  rcases (poll_spec e F 2 d w d' w' hp hw).1 with h1 | h1 | h1 | h1
   · exact Or.inl h1
   · exact Or.inr (Or.inl h1)
   · exact Or.inr (Or.inr h1)
@@ -137,7 +138,7 @@ theorem C04_pending_registers_read (e : Env) (F : Nat) (d d' : D) (w w' : World)
     d'.flags.readDisc = true ∨ (w'.sem .r).waiting = true ∨ w'.silentWaiting = true ∨
       d'.rb ≥ Consts.h1MaxBufferSize := by
   obtain ⟨hp, hfuel⟩ := pollTop_pending h
-  rcases (poll_spec e F 2 d w d' w' hp).2 hfix hw hl hs with h1 | (h1 | h1 | h1) | h1
+  rcases (poll_spec e F 2 d w d' w' hp hw).2 hfix hl hs with h1 | (h1 | h1 | h1) | h1
   · exact Or.inl h1
   · exact Or.inr (Or.inl h1)
   · exact Or.inr (Or.inr (Or.inl h1))
@@ -229,22 +230,23 @@ theorem C04_pending_registers_linger (e : Env) (F : Nat) (d d' : D) (w w' : Worl
             unfold pollLinger at hpl
             split at hpl
             · simp at hpl
-            · next d2 w2 hf =>
-              simp at hpl; obtain ⟨rfl, rfl⟩ := hpl
-              have pf : FlushPost .pending d2 w2 := post_of_eq3 hf (dFlush_spec d0 w0).2
-              rcases pf.2 rfl with h1 | h1 | h1
-              · exact Or.inl h1
-              · exact Or.inr (Or.inl h1)
-              · exact Or.inr (Or.inr (Or.inr (Or.inr (Or.inr h1))))
-            · split at hpl
+            · next d2 he =>
+              split at hpl
               · simp at hpl
+              · next d3 w3 hf =>
+                simp at hpl; obtain ⟨rfl, rfl⟩ := hpl
+                have pf : FlushPost .pending d3 w3 := post_of_eq3 hf (dFlush_spec d2 w0).2
+                rcases pf.2 rfl with h1 | h1 | h1
+                · exact Or.inl h1
+                · exact Or.inr (Or.inl h1)
+                · exact Or.inr (Or.inr (Or.inr (Or.inr (Or.inr h1))))
               · rcases lingerLoop_pending _ _ _ _ _ _ hpl with h1 | h1
                 · exact Or.inr (Or.inr (Or.inl h1))
                 · exact Or.inr (Or.inr (Or.inr h1))
         · split at h
           · next hsd =>
-            have := (shutdownBranch_spec d0 w0 d' w' h).2
-            rcases shutdownBranch_registered d0 w0 d' w' h with h1 | h1 | h1 | h1
+            have := (shutdownBranch_spec e d0 w0 d' w' h).2
+            rcases shutdownBranch_registered e d0 w0 d' w' h with h1 | h1 | h1 | h1
             · exact Or.inl h1
             · exact Or.inr (Or.inl h1)
             · -- shutdown mode: `linger` is unchanged (= false here)
@@ -308,24 +310,24 @@ theorem C04_pending_registers_shutdown (e : Env) (F : Nat) (d d' : D) (w w' : Wo
           · next d1 w1 hpl =>
             simp at h; obtain ⟨rfl, rfl⟩ := h
             unfold pollLinger at hpl
+            have hel := (ensureLingerTimer_same e d0 w0.now).2
             split at hpl
             · simp at hpl
-            · next d2 w2 hf =>
-              simp at hpl; obtain ⟨rfl, rfl⟩ := hpl
-              have := dFlush_flags d0 w0; rw [hf] at this
-              simp only at this; rw [this, hlin] at hl; cases hl
-            · next d2 w2 hf =>
-              have hfl := dFlush_flags d0 w0; rw [hf] at hfl; simp only at hfl
-              have hel := (ensureLingerTimer_same e d2 w2.now).2
+            · next d2 he =>
+              rw [he] at hel; simp only at hel
               split at hpl
               · simp at hpl
-              · next d3 he =>
-                rw [he] at hel; simp only at hel
+              · next d3 w3 hf =>
+                simp at hpl; obtain ⟨rfl, rfl⟩ := hpl
+                have := dFlush_flags d2 w0; rw [hf] at this
+                simp only at this; rw [this, hel, hlin] at hl; cases hl
+              · next d3 w3 hf =>
+                have hfl := dFlush_flags d2 w0; rw [hf] at hfl; simp only at hfl
                 rcases lingerLoop_pending_linger _ _ _ _ _ _ hpl with h1 | h1
-                · rw [h1, hel, hfl, hlin] at hl; cases hl
+                · rw [h1, hfl, hel, hlin] at hl; cases hl
                 · rw [hfuel] at h1; cases h1
         · split at h
-          · exact (shutdownBranch_registered d0 w0 d' w' h).elim Or.inl fun h1 =>
+          · exact (shutdownBranch_registered e d0 w0 d' w' h).elim Or.inl fun h1 =>
               h1.elim (fun h2 => Or.inr (Or.inl h2)) fun h2 =>
                 h2.elim (fun h3 => Or.inr (Or.inr h3)) fun h3 => by rw [hfuel] at h3; cases h3
           · split at h
@@ -361,10 +363,10 @@ verdict `stalled` is impossible while produced bytes are not yet on the wire.  T
 `C04_flush_terminates` (each such wake-up consumes one of the socket's finitely many `Pending`
 answers) this is "all produced bytes get flushed". -/
 theorem C04_no_stall_with_unflushed_bytes (e : Env) (F : Nat) (d d' : D) (w w' : World)
-    (h : pollTop e F d w = (.pending, d', w')) (hun : d'.wlen > 0 ∨ w'.dirty = true)
-    (tr : List String) :
+    (h : pollTop e F d w = (.pending, d', w')) (hw : w'.woken = false)
+    (hun : d'.wlen > 0 ∨ w'.dirty = true) (tr : List String) :
     (fireWaiters false Src.waitable w' tr false).2.2 = true := by
-  rcases C04_pending_registers_write e F d d' w w' h with ⟨h0, hd0⟩ | h1 | h1
+  rcases C04_pending_registers_write e F d d' w w' h hw with ⟨h0, hd0⟩ | h1 | h1
   · rcases hun with hu | hu
     · omega
     · rw [hd0] at hu; cases hu
